@@ -438,7 +438,7 @@ var optVariants = []*OptVariant{
 					}
 					switch {
 					case e.Addenda98 != nil || e.Addenda98Refused != nil:
-						e.Amount = r.Range(1, 99999) // a NOC entry with an amount
+						continue // BatchCOR.Validate wants zero totals whatever the options
 					case e.Amount == 0:
 						e.Amount = r.Range(1, 99999) // a prenote / zero-dollar entry with an amount
 					case e.Category == ach.CategoryForward:
